@@ -162,7 +162,7 @@ func (m c05) checkLoc(c *fw.Ctx, loc gts.Location, L int) {
 		if model.SafeString(rr) != model.SafeString(loc) {
 			// printing may differ only by a legitimate reduction of the input
 			// (e.g. join(1,1)); require equal print when the input is reduced.
-			if reflect.DeepEqual(gen.CloneLoc(loc), loc) && isReduced(before) {
+			if reflect.DeepEqual(gen.CloneLoc(loc), loc) && isReduced(before) && !hasComplementRun(loc) {
 				c.Violate("Location.Reverse.Reverse:print:"+locKind(loc), enc, model.SafeString(loc), model.SafeString(rr))
 				return
 			}
@@ -428,6 +428,23 @@ func (m c05) Run(c *fw.Ctx) {
 			} else {
 				loc = gts.Join(parts...)
 			}
+			if r.Intn(6) == 0 {
+				// the member-by-member spelling of a complement-strand join:
+				// join(complement(15..17),complement(9..11),complement(2..4)),
+				// as a literal value (what a table written by other tools holds).
+				lit := make(gts.Joined, 0, len(parts))
+				for k := len(parts) - 1; k >= 0; k-- {
+					p := parts[k]
+					if _, ok := p.(gts.Complemented); !ok {
+						p = gts.Complemented{Location: p}
+					}
+					lit = append(lit, p)
+				}
+				if len(lit) > 1 {
+					loc = lit
+					c.Bucket("literal join of complemented members")
+				}
+			}
 		}
 		if r.Intn(3) == 0 {
 			loc = loc.Complement()
@@ -471,6 +488,36 @@ func (m c05) Run(c *fw.Ctx) {
 		m.checkSeq(c, tab, hostB, alpha)
 	}
 	cliReverseComplement(c)
+}
+
+// hasComplementRun reports a join with two complemented members in a row
+// somewhere in loc: the member-by-member spelling of a complement-strand join,
+// which gts.Join rewrites as complement(join(..)) (so the value is not in the
+// form the constructors produce and need not print the same after a round
+// trip through Reverse; what it denotes is still checked).
+func hasComplementRun(loc gts.Location) bool {
+	switch v := loc.(type) {
+	case gts.Complemented:
+		return hasComplementRun(v.Location)
+	case gts.Joined:
+		for i, m := range v {
+			if _, ok := m.(gts.Complemented); ok && i > 0 {
+				if _, ok2 := v[i-1].(gts.Complemented); ok2 {
+					return true
+				}
+			}
+			if hasComplementRun(m) {
+				return true
+			}
+		}
+	case gts.Ordered:
+		for _, m := range v {
+			if hasComplementRun(m) {
+				return true
+			}
+		}
+	}
+	return false
 }
 
 var c05Tick int
